@@ -15,6 +15,12 @@ def gen_jobs(ck, n_ssa, n_reg):
         '(reg k3 (ir 1) (insts (0 (i 0 0))) (max 2) (outs 1) (ands 0) (ins "1"))',
         '(reg k4 (ir 1) (insts (0 (i 0 7))) (max 1) (outs 0) (ands 0) (ins "1"))',
         '(reg k5 (ir 1 2) (insts (0 (i 0 0)) (1 (i 1 0)) (2 (i 1 1)) (1 (x 0 1)) (0 (a 0 2)) (1 (x 1 0)) (0 (a 0 1))) (max 3) (outs 1 0) (ands 2) (ins "1" "01"))',
+        # round-9 seed C16-r9: an Input instruction that names a ZERO-SIZE party with index 0 (off-by-one of the bounds test)
+        '(reg k10 (ir 1 0) (insts (0 (i 0 0)) (1 (i 1 0)) (2 (x 0 1))) (max 3) (outs 2) (ands 0) (ins "1" ""))',
+        '(reg k11 (ir 0 1) (insts (0 (i 0 0)) (1 (i 1 0)) (2 (x 0 1))) (max 3) (outs 2) (ands 0) (ins "" "1"))',
+        '(reg k12 (ir 0 2 0) (insts (0 (i 1 0)) (1 (i 1 1)) (2 (i 2 0)) (3 (a 0 1))) (max 4) (outs 3) (ands 1) (ins "" "10" ""))',
+        '(reg k13 (ir 2 0) (insts (0 (i 0 0)) (1 (i 0 1)) (2 (i 1 1)) (3 (a 0 1))) (max 4) (outs 3) (ands 1) (ins "10" ""))',
+        '(reg k14 (ir 1 0) (insts (0 (i 0 0)) (1 (x 0 0))) (max 2) (outs 1) (ands 0) (ins "1" ""))',
         '(ssa k6 (ig 0) (gates (x 0 0)) (outs 0) (ins ""))',
         '(ssa k7 (ig 1 2) (gates (x 0 1) (a 0 2) (x 3 4) (n 5)) (outs 5 6 0) (ins "1" "01"))',
         '(ssa k8 (ig 2) (gates (x 2 0)) (outs 2) (ins "10"))',
